@@ -282,9 +282,45 @@ func c12Monitor(c *Ctx) *RuleResult {
 			}
 			return true
 		})
+		if unlock == nil && lock == nil && fcall == nil {
+			// unlock -> cleaner -> lock moved into a helper called from clean()
+			ast.Inspect(cu.Decl.Body, func(n ast.Node) bool {
+				hc, ok := n.(*ast.CallExpr)
+				if !ok {
+					return true
+				}
+				hu := p.UnitOf(calleeOf(info, hc))
+				if hu == nil || hu.Fn.Pkg() != cu.Fn.Pkg() {
+					return true
+				}
+				var hUn, hLk, hF ast.Node
+				ast.Inspect(hu.Decl.Body, func(m ast.Node) bool {
+					if x, ok := m.(*ast.CallExpr); ok {
+						if sel, ok := ast.Unparen(x.Fun).(*ast.SelectorExpr); ok {
+							switch sel.Sel.Name {
+							case "Unlock":
+								hUn = x
+							case "Lock":
+								hLk = x
+							case "f":
+								hF = x
+							}
+						}
+					}
+					return true
+				})
+				if hUn != nil && hLk != nil && hF != nil {
+					hg := NewFuncCFG(hu.Info(), hu.Decl.Body)
+					if hg.Dominates(hUn, hF) && hg.Dominates(hF, hLk) && hg.EveryPathPasses(func(m ast.Node) bool { return m == hLk }) {
+						unlock, fcall, lock = hc, hc, hc
+					}
+				}
+				return true
+			})
+		}
 		construct := cu.Name() + "|order"
 		if setW != nil && unlock != nil && lock != nil && fcall != nil && closeW != nil && clearW != nil &&
-			g.Dominates(setW, unlock) && g.Dominates(unlock, fcall) && g.Dominates(fcall, lock) && g.Dominates(lock, closeW) && g.Dominates(lock, clearW) &&
+			g.Dominates(setW, unlock) && (unlock == fcall || g.Dominates(unlock, fcall)) && (fcall == lock || g.Dominates(fcall, lock)) && g.Dominates(lock, closeW) && g.Dominates(lock, clearW) &&
 			g.PostDominates(closeW, setW) && g.PostDominates(clearW, setW) {
 			r.ok(construct, posOf(p, cu.Decl), "wakeup set -> unlock -> cleaner -> lock -> close(wakeup), wakeup = nil on all paths")
 		} else {
